@@ -67,7 +67,8 @@ func (m *trimModel) removable(mask uint32, i int) bool {
 	if !ok {
 		return false
 	}
-	return oracle.Cross64(m.p[pr], m.p[i], m.p[nx]) == 0
+	a, b, c := m.p[pr], m.p[i], m.p[nx]
+	return cmpProd(b.X-a.X, c.Y-b.Y, b.Y-a.Y, c.X-b.X) == 0 // exact in 128 bits
 }
 
 func popcount(x uint32) int {
@@ -206,8 +207,8 @@ func c15Scope(e enum.Embed, k, n int, open bool, level int) *drv.Scope {
 			}
 			if !open {
 				// independent restatement: exact area unchanged
-				if oracle.Area2Small(in) != oracle.Area2Small(got) {
-					c.Fail("area", "", "TrimCollinear64(%v, closed)=%v changed twice-area %d -> %d", in, got, oracle.Area2Small(in), oracle.Area2Small(got))
+				if oracle.Area2(in).Cmp(oracle.Area2(got)) != 0 {
+					c.Fail("area", "", "TrimCollinear64(%v, closed)=%v changed twice-area %v -> %v", in, got, oracle.Area2(in), oracle.Area2(got))
 				}
 			} else if len(got) > 0 && (got[0] != in[0] || got[len(got)-1] != in[len(in)-1]) {
 				c.Fail("open-ends", "", "TrimCollinear64(%v, open)=%v dropped an end point", in, got)
@@ -227,6 +228,9 @@ func c15Scope(e enum.Embed, k, n int, open bool, level int) *drv.Scope {
 			}
 		}}
 }
+
+// multiples of 2^32 and 2^33: cross products of real corners differ only in the high 64-bit word
+var c15E32 = enum.Embed{Name: "E_2^32", Big: true, F: func(x, y int64) Pt { return Pt{X: (x - 1) << 32, Y: (y - 1) << 33} }}
 
 func init() {
 	drv.Register(&drv.Check{
@@ -256,6 +260,7 @@ func init() {
 					out = append(out, c15Scope(enum.Eax, 3, n, open, n-2))
 					out = append(out, c15Scope(enum.Ebig, 3, n, open, n-2))
 					out = append(out, c15Scope(enum.EbigOdd, 3, n, open, n-2))
+					out = append(out, c15Scope(c15E32, 3, n, open, n-2))
 				}
 				if tier == "thorough" {
 					out = append(out, c15Scope(enum.Eax, 3, 6, open, 4))
